@@ -2,6 +2,7 @@ import EpdVerif.Props.C05
 import EpdVerif.Props.C11
 import EpdVerif.Oracle.All
 import EpdVerif.Table
+import EpdVerif.Lemmas.SsdMode
 /-!
 # Schedule-free / payload-free checks of a program, and the tactic that decides them per panel
 
@@ -48,6 +49,20 @@ def lutUploads (p : Panel) (acts : List Act) : List (UInt8 × Bytes) :=
 
 def lutMatches (f : Feat) (p : Panel) (m : Refresh) (acts : List Act) : Bool :=
   lutUploads p acts == (Spec.lutRef f p.name m).getD []
+
+/-- C02 (reachability half): the operation keeps the controller ready for a full-frame update —
+    SSD16xx: awake and in data-entry mode 3; UC81xx / ACeP: awake and outside partial mode — whatever
+    its window, counter, RAM, LUT and power state (`Ssd.keepsMode_sound`, `Uc.keepsFlags_sound`) -/
+def keepsModeP (p : Panel) (acts : List Act) : Bool :=
+  match p.ctrl with
+  | .ssd s => Ssd.keepsMode s.xPix s.stride s.rows (blocksOf acts)
+  | .uc u => Uc.keepsFlags u.has14 (blocksOf acts)
+
+/-- … and construction / wake-up reach that mode from ANY mode (sleeping or not) -/
+def establishesModeP (p : Panel) (acts : List Act) : Bool :=
+  match p.ctrl with
+  | .ssd s => Ssd.establishesMode s.xPix s.stride s.rows (blocksOf acts)
+  | .uc u => Uc.establishesFlags u.has14 (blocksOf acts)
 
 /-- decide a closed-control-flow statement by kernel evaluation, after splitting the feature flags
     `f` and the control-relevant driver fields of `d` into cases -/
